@@ -19,7 +19,16 @@ Definition parts (c : opcase) : option (tval * tval * option tval) :=
   | _ => None
   end.
 
+(* Init of conv.go: an attribute it does not know, or group <> 1, refuses the node -- wherever the
+   attribute stands in the list *)
+Definition known_attr (a : attr) : bool :=
+  existsb (String.eqb (attr_name a)) ["auto_pad"; "dilations"; "group"; "kernel_shape"; "pads"; "strides"]%string.
+Definition init_refuses (c : opcase) : bool :=
+  negb (forallb known_attr (oc_attrs c))
+  || existsb (fun a => match a with AInt n g => String.eqb n "group" && negb (g =? 1) | _ => false end) (oc_attrs c).
+
 Definition model (c : opcase) : mres (list (option tval)) :=
+  if init_refuses c then MErr else
   match parts c with
   | Some (x, k, b) => let* v := conv_model (cfg_of c) x k b in MOk [Some v]
   | None => MErr
@@ -28,6 +37,7 @@ Definition model (c : opcase) : mres (list (option tval)) :=
 (* S: the ONNX result, or a refusal ("a configuration the library does not implement is refused
    with an error instead of being computed differently") *)
 Definition spec (c : opcase) : spec_out :=
+  if init_refuses c then SMustErr (* grouped convolution / unknown attributes: not implemented, so refused *) else
   match parts c with
   | Some (x, k, b) => SEither [Some (conv_spec (cfg_of c) x k b)]
   | None => SOutOfDomain
